@@ -47,6 +47,8 @@ type userConstraint struct {
 	K         int    `json:"k"`
 	T         float64 `json:"t"`
 	Temporal  bool   `json:"temporal"`
+	// Level "multi": ONE constraint object implementing all three check interfaces, one predicate per level
+	Sub       []*userConstraint `json:"sub,omitempty"`
 	rejected  int
 	evaluated int
 }
@@ -135,8 +137,19 @@ func (u ucSolution) DoesSolutionHaveViolations(s nextroute.Solution) bool {
 }
 
 func genUserConstraint(rng *rand.Rand, c *Case) *userConstraint {
+	if rng.Intn(4) == 0 {
+		m := &userConstraint{Level: "multi", Kind: "all", Temporal: rng.Intn(2) == 0}
+		for lvl := 0; lvl < 3; lvl++ {
+			m.Sub = append(m.Sub, genUserConstraintLevel(rng, c, lvl))
+		}
+		return m
+	}
+	return genUserConstraintLevel(rng, c, rng.Intn(3))
+}
+
+func genUserConstraintLevel(rng *rand.Rand, c *Case, level int) *userConstraint {
 	u := &userConstraint{Temporal: rng.Intn(2) == 0}
-	switch rng.Intn(3) {
+	switch level {
 	case 0:
 		u.Level = "stop"
 		u.Kind = []string{"position", "arrival", "cumtravel", "parity"}[rng.Intn(4)]
@@ -161,8 +174,29 @@ func genUserConstraint(rng *rand.Rand, c *Case) *userConstraint {
 	return u
 }
 
+type ucMulti struct{ *userConstraint }
+
+func (u ucMulti) count(b bool) bool {
+	u.evaluated++
+	if b {
+		u.rejected++
+	}
+	return b
+}
+func (u ucMulti) DoesStopHaveViolations(s nextroute.SolutionStop) bool {
+	return u.count(u.Sub[0].stopBad(s))
+}
+func (u ucMulti) DoesVehicleHaveViolations(v nextroute.SolutionVehicle) bool {
+	return u.count(u.Sub[1].vehicleBad(v))
+}
+func (u ucMulti) DoesSolutionHaveViolations(s nextroute.Solution) bool {
+	return u.count(u.Sub[2].solutionBad(s))
+}
+
 func (u *userConstraint) asConstraint() nextroute.ModelConstraint {
 	switch u.Level {
+	case "multi":
+		return ucMulti{u}
 	case "stop":
 		return ucStop{u}
 	case "vehicle":
@@ -174,6 +208,13 @@ func (u *userConstraint) asConstraint() nextroute.ModelConstraint {
 // holdsOn evaluates the user predicate on a whole solution, independently of the engine's calls.
 func (u *userConstraint) violatedOn(s nextroute.Solution) string {
 	switch u.Level {
+	case "multi":
+		for _, sub := range u.Sub {
+			if w := sub.violatedOn(s); w != "" {
+				return sub.Level + " level: " + w
+			}
+		}
+		return ""
 	case "stop":
 		for _, v := range s.Vehicles() {
 			for _, st := range v.SolutionStops() {
@@ -283,6 +324,42 @@ func booksConsistent(s nextroute.Solution) bool {
 		return true
 	}
 	return check(s.PlannedPlanUnits(), true) && check(s.FixedPlanUnits(), true) && check(s.UnPlannedPlanUnits(), false)
+}
+
+func rootIndex(u nextroute.ModelPlanUnit) int {
+	for {
+		p, ok := u.PlanUnitsUnit()
+		if !ok {
+			return u.Index()
+		}
+		u = p
+	}
+}
+
+// inconsistentRoots: the root units whose filing (planned / unplanned collection) disagrees with their stops.
+func inconsistentRoots(s nextroute.Solution) []int {
+	var bad []int
+	check := func(c nextroute.ImmutableSolutionPlanUnitCollection, wantPlanned bool) {
+		for _, u := range c.SolutionPlanUnits() {
+			ok := u.IsPlanned() == wantPlanned
+			if ok && !wantPlanned {
+				for _, m := range memberStopsUnits(u) {
+					for _, st := range m.SolutionStops() {
+						if st.IsPlanned() {
+							ok = false
+						}
+					}
+				}
+			}
+			if !ok {
+				bad = append(bad, rootIndex(u.ModelPlanUnit()))
+			}
+		}
+	}
+	check(s.PlannedPlanUnits(), true)
+	check(s.FixedPlanUnits(), true)
+	check(s.UnPlannedPlanUnits(), false)
+	return bad
 }
 
 // unplannedScoreFresh: the unplanned-penalty term equals the penalties of the units listed as unplanned
@@ -615,6 +692,17 @@ func runHistCase(o *Out, ci int, hc *histCase, nops int, distinct map[string]boo
 	shadowSnap := ""
 	rejectedKinds := map[string]bool{}
 	touchedNested := false
+	brokenBy := map[int]string{} // root unit → the operation after which its filing first disagreed with its stops
+	whereOf := func(si int) string {
+		st := sol.SolutionStop(bt.model.Stops()[si])
+		if st.IsZero() {
+			return "after-?"
+		}
+		if op, ok := brokenBy[rootIndex(st.PlanStopsUnit().ModelPlanUnit())]; ok {
+			return "after-" + op
+		}
+		return "after-?"
+	}
 	doPanic := func(what string, f func()) (panicked bool) {
 		defer func() {
 			if r := recover(); r != nil {
@@ -1005,6 +1093,18 @@ func runHistCase(o *Out, ci int, hc *histCase, nops int, distinct map[string]boo
 			collLine = "" // nothing modelled happened (the search of BestMove itself is not part of NR.Coll): resynchronise
 		}
 		collOp(collLine)
+		newlyBroken := false
+		for _, r := range inconsistentRoots(sol) {
+			if _, ok := brokenBy[r]; !ok {
+				brokenBy[r] = opDesc
+				newlyBroken = true
+			}
+		}
+		if newlyBroken {
+			// C20 on the state in which a unit's filing first disagrees with its stops
+			doPanic("format", func() { checkFormat(o, c, bt, sol, hc, "hist", whereOf) })
+			o.Count("formatted-broken-states")
+		}
 		if !tainted && (!booksConsistent(sol) || !unplannedScoreFresh(bt, sol)) {
 			tainted = true
 			o.Count("tainted-by:" + opDesc)
@@ -1015,6 +1115,10 @@ func runHistCase(o *Out, ci int, hc *histCase, nops int, distinct map[string]boo
 				shadowSnap = s
 			}
 		}
+	}
+	// C20: the output of the final state lists every stop exactly once and agrees with the solution object
+	if !doPanic("format", func() { checkFormat(o, c, bt, sol, hc, "hist", whereOf) }) {
+		o.Count("formatted-final-states")
 	}
 	if uc != nil {
 		o.CountN("uc-evaluations", uc.evaluated)
